@@ -1,13 +1,15 @@
-from harness import common, engine_deser
+from harness import common, engine_deser, sublaw
 
 
 def main() -> int:
     rep = common.Report("C01", "model_checking")
     rep.assumptions = ["the reference semantics (spec/DataModel.tla) is my reading of the documented data model",
                        "regex matching and int()/float() parsing are Python's own, carried as string attributes",
-                       "bounded universe (spec/Universe.tla) + seeded random deep types beyond it"]
+                       "bounded universe (spec/Universe.tla) + seeded random deep types beyond it",
+                       "classes derived from a primitive (class Port(int)) are outside the universe's encoding: the law 'behaves as its primitive base, the value being an instance of the class' is checked on the real code on both sides (harness/sublaw.py)"]
     # the repaired defect "aggregate field names reserved" must contradict the reference semantics
     engine_deser.run("C01", rep, exotic=False, negative={"aggnames": ("DispatchEqSequential", "d1")})
+    rep.set("subprimitive_law_calls", sublaw.run(rep, "C01", [{}]))
     return rep.finish()
 
 
